@@ -99,6 +99,9 @@ func genDSpec(t *rapid.T) []int64 {
 		default:
 			d = int64(rapid.IntRange(1, 5000).Draw(t, "dus")) * int64(time.Microsecond)
 		}
+		if rapid.IntRange(0, 5).Draw(t, "dneg") == 0 {
+			d = -d // lag/skew histograms have bounds below zero
+		}
 		set[d] = true
 	}
 	var ds []int64
